@@ -6,7 +6,13 @@ import operator
 import claripy
 import claripy.backends.backend_vsa as vsa
 from claripy.ast import BV, Base, Bool
-from claripy.errors import BackendError, ClaripyBalancerError, ClaripyBalancerUnsatError, ClaripyOperationError
+from claripy.errors import (
+    BackendError,
+    ClaripyASTError,
+    ClaripyBalancerError,
+    ClaripyBalancerUnsatError,
+    ClaripyOperationError,
+)
 from claripy.operations import commutative_operations, opposites
 
 log = logging.getLogger(__name__)
@@ -30,8 +36,9 @@ class Balancer:
         except ClaripyBalancerUnsatError:
             self.bounds = {}
             self.sat = False
-        except (BackendError, ClaripyBalancerError, ClaripyOperationError):
-            # we cannot make sense of the constraint: that is no information, not an error
+        except (BackendError, ClaripyASTError):
+            # we cannot make sense of the constraint (this includes a rewrite rule that builds an ill-sized expression
+            # and gets a ClaripyTypeError): that is no information, not an error
             log.debug("Backend or balancer error in balancer.", exc_info=True)
 
     @property
